@@ -42,7 +42,10 @@ def run : Runner
       (let h := hamming v m; 1 ≤ h ∧ h ≤ 4) && v.take (sep+1) == m.take (sep+1) &&
       !(m.drop (sep+1)).contains 49
     pure { model := bdecTok m,
-           prop := if !applicable then "-" else if impl.startsWith "err" then "ok" else "violated:accepted ≤4 substitutions" }
+           prop := if !applicable then "-" else if impl.startsWith "err" then "ok"
+                   else if m == v.map Bech32.toUpper || m == v.map Bech32.toLower then
+                     "violated:accepted a case variant of an accepted string (hrp without letters)"
+                   else "violated:accepted ≤4 substitutions" }
   | op, args, impl => C01.run op args impl
 
 end Bch.Drive.C03
